@@ -367,7 +367,8 @@ class IndexedSet(MutableSet):
         "symmetric_difference_update(other) -> in-place XOR with other"
         if self is other:
             self.clear()
-        for val in other:
+            return
+        for val in IndexedSet(other):  # each distinct item toggles once
             if val in self:
                 self.discard(val)
             else:
